@@ -24,6 +24,23 @@
 #   * `x?` on an Option/Result propagates the value of TRY_ERR (a poison `Panic` where the error has no counterpart in the
 #     model: the equality lemma then has to show the case unreachable).
 #
+#
+# Round two (package r2c2) added, with the same rule (outside the subset = TieBroken):
+#   * `let mut x: T;` / `let mut x;` (declared, assigned later): no binder at the declaration; a variable that is still
+#     unassigned at a loop head / an `if` join is local to the body resp. branch (Rust's definite-assignment analysis
+#     guarantees it is not read before it is assigned, nor after the loop); a read of a possibly unassigned variable is refused;
+#   * `for x in v.drain(..)` / `for x in v` (for_in over the elements, v empty resp. moved afterwards), `&v[lo..hi]` (the
+#     call table's checked sub-slice), n-tuple projections `.k`, `v.sort_by_key(|t| t.k)` (call table, by the projection),
+#     `v.iter().position(|x| *x == value)` (find_first), `match <option> { Some(x) => .., None => .. }` in tail position;
+#   * `&dyn Fn(X, ..) -> Y` parameters as function arguments X -> .. -> res Y (a closure may panic); calls of them are fallible;
+#   * Result<A, B> mapped to an enumeration of the model (`result_enum`: Ok / Err constructors), functions and paths with
+#     `&mut` arguments (`out` of a PATHS entry; `&mut v[i]` is read before and written back after the call), operands a
+#     callee consumes without the model returning them (`kills`: any later read is refused);
+#   * a second scalar sort ("celem": Complex<f64> over its own Arith) with the table's mixed operators, spec-level operator /
+#     field / constant tables, float literals as named parameters of the model (`literals`, `lit_nat`, `arrays`), compile-time
+#     `const` items (substituted), usize `/` `%` by a variable (udiv / umod: Panic DivZero);
+#   * a[k][v] = x (row read, element written, row written back), `std::thread::scope(|s| BODY)` = BODY,
+#     `s.spawn(|| BLOCK)` = the computation of BLOCK as a value (res T), `h.join().unwrap()` = join_unwrap h.
 # Anything outside the subset raises TieBroken naming the construct -- never a silent approximation.
 import re
 try:
